@@ -428,7 +428,14 @@ func (c *FnCtx) specKeyTerm(env *SpecEnv, k Val) string {
 func (c *FnCtx) evalSel(env *SpecEnv, e *Expr) (Val, error) {
 	// package-qualified identifier?
 	if e.Args[0].Op == "id" {
-		if _, isVar := env.vars[e.Args[0].Name]; !isVar && env.pkg != nil {
+		_, isVar := env.vars[e.Args[0].Name]
+		if !isVar && env.frame != nil && env.at != nil && !env.foreign {
+			// a local variable shadows a package of the same name (e.g. `hash`)
+			if _, ok := c.resolveLocal(env, e.Args[0].Name); ok {
+				isVar = true
+			}
+		}
+		if !isVar && env.pkg != nil {
 			if p := c.eng.importedPkg(env.pkg, e.Args[0].Name); p != nil {
 				sub := *env
 				sub.pkg = p
